@@ -4,6 +4,7 @@ import (
 	"fmt"
 	"go/token"
 	"go/types"
+	"sort"
 
 	"golang.org/x/tools/go/ssa"
 )
@@ -15,190 +16,309 @@ func c04r1(c *Ctx) {
 	const rule = "C04-R1"
 	c.Doc(rule, "who-may-call: Stream.writer is used only by writeWithContext and Stream.reader only by readWithContext, both assigned only by NewStream/SetConnection; writeWithContext is called only by sendMessageWithEnd, readWithContext only by ReceiveFrame/ReceiveFrameWithEnd; no Read/Write on Stream.conn or on GetConnection()'s result - so every byte on the connection passes the functions that feed the handshake digests")
 	n := c04ChokePoints(c, rule)
-	c.MinCount(rule, "call sites / field accesses / connection loads inspected", n, 20)
+	c.MinCount(rule, "call sites / field accesses / connection loads inspected", n, 6)
 }
 
 // C04-R2: every cleartext byte sent/received before the freeze feeds the direction's digest.
+// Evaluated on the inlined view of the three anchored functions (help_c12.go): the guard, the hash writes and
+// the flag store may sit in the function itself or in same-module helpers it calls (a tracking method, a
+// "digest still running" predicate, a header-reading helper, a variadic "hash these parts" method).
 func c04r2(c *Ctx) {
 	const rule = "C04-R2"
-	c.Doc(rule, "digest fed: in sendMessageWithEnd every path to the connection write passes the 'send digest frozen' edge or hash writes of the whole 5-byte header AND of the data parameter (or the len(data)==0 edge) AND the store sendDigestWritten=true; in both receivers every success return passes the 'recv digest frozen' edge or hash writes of the whole header buffer read from the wire AND of a slice that flows into the returned one (or the wire-length==0 edge) AND recvDigestWritten=true; the header is hashed before the payload; 'digest == nil' branches are pruned only under the constructor invariant (sole writer NewStream storing sha256.New(), no Stream allocated elsewhere)")
+	c.Doc(rule, "digest fed: in sendMessageWithEnd every path to the connection write passes the 'send digest frozen' edge or hash writes of the whole 5-byte header AND of the data parameter (or the len(data)==0 edge) AND the store sendDigestWritten=true; in both receivers every success return passes the 'recv digest frozen' edge or hash writes of the whole header buffer read from the wire AND of a slice that flows into the returned one (or the wire-length==0 edge) AND recvDigestWritten=true; the header is hashed before the payload; 'digest == nil' branches are pruned only under the constructor invariant (sole writer NewStream storing sha256.New(), no Stream allocated elsewhere); same-module helpers called by these functions are followed (depth 4)")
 	a := c04Anchors(c, rule)
 	put := c.c01BinaryMethod(rule, "BigEndian", "PutUint32")
 	if !a.ok || put == nil {
 		return
 	}
 	n := 0
+	newX := func(fields ...*types.Var) *c04X {
+		x := c04NewX(c.Prog, a.wwc, a.rwc, a.enc, a.dec)
+		return x
+	}
+	// frozen: the outcome of a test of the final digest on which it is set; under the constructor invariant
+	// the "running digest is nil" outcome is dead as well
+	baseCond := func(final, digest *types.Var, ctorOK bool) func(*c04XState, c04XAtom, bool) bool {
+		return func(_ *c04XState, at c04XAtom, truth bool) bool {
+			if on, ok := c04AtomField(at, final, truth); ok && on {
+				return true
+			}
+			if ctorOK {
+				if on, ok := c04AtomField(at, digest, truth); ok && !on {
+					return true
+				}
+			}
+			return false
+		}
+	}
+	or := func(fs ...func(*c04XState, c04XAtom, bool) bool) func(*c04XState, c04XAtom, bool) bool {
+		return func(st *c04XState, at c04XAtom, truth bool) bool {
+			for _, f := range fs {
+				if f != nil && f(st, at, truth) {
+					return true
+				}
+			}
+			return false
+		}
+	}
+	// order: within one invocation no header write is reachable after a payload write
+	order := func(x *c04X, root *c04Frame, isHdr, isData func(*c04XState, ssa.Instruction) bool) {
+		good := true
+		var pos token.Pos
+		for _, d := range x.Reach(root.Entry(), &c04XQuery{}, isData) {
+			if hit := x.Search(d.After(), &c04XQuery{Target: isHdr}); hit != nil {
+				good, pos = false, d.Instr().Pos()
+			}
+		}
+		c.Check(good, rule, fnName(root.Fn)+"#hash-order", "the header is hashed before the payload", "the payload is hashed before the header: the digest differs from the peer's, which hashes header then payload", pos)
+	}
+	overflow := func(x *c04X, fn *ssa.Function) {
+		if x.Overflow {
+			c.Undecided(rule, fnName(fn)+"#search", "the inlined control flow of this function is too large to search exhaustively", fn.Pos())
+		}
+	}
 	// --- sender
 	{
 		fn := a.send
-		cuts := func() *Cuts {
-			_, frozen := fieldCondEdges(fn, a.finalSend)
-			return newCuts().AddEdges(frozen...)
-		}
-		base := cuts()
-		if c04DigestCtor(c, rule, a, a.sendDigest) {
-			nilE, _ := fieldCondEdges(fn, a.sendDigest)
-			base.AddEdges(nilE...)
-		}
+		x := newX(a.sendDigest, a.finalSend, a.sendWritten)
+		root := x.Root(fn)
+		base := baseCond(a.finalSend, a.sendDigest, c04DigestCtor(c, rule, a, a.sendDigest))
 		data := c01Param(fn, "data", 2)
+		dataV := c04XV{root, data}
 		// headers: local arrays that receive the big-endian length
-		headers := map[ssa.Value]bool{}
-		for _, call := range callsIn(fn, put) {
-			args := callArgs(call)
-			headers[memRoot(args[len(args)-2])] = true
-		}
-		hdrCuts, dataCuts, flagCuts := cuts(), cuts(), cuts()
-		for _, cc := range []*Cuts{hdrCuts, dataCuts, flagCuts} {
-			for e := range base.Edges {
-				cc.AddEdges(e)
+		headers := map[c04XV]bool{}
+		root.Walk(func(fr *c04Frame, in ssa.Instruction) {
+			if call, ok := isCallTo(in, put); ok {
+				args := callArgs(call)
+				r, _ := x.WholeOf(nil, fr, args[len(args)-2])
+				headers[r] = true
 			}
-		}
-		for _, w := range c04HashWrites(fn, a.sendDigest) {
-			arg := w.Common().Args[0]
-			switch {
-			case headers[memRoot(arg)] && c04WholeOf(arg, memRoot(arg)):
-				hdrCuts.AddInstrs(w)
-			case data != nil && arg == ssa.Value(data):
-				dataCuts.AddInstrs(w)
-			default:
-				c.Note("%s: %s: a send-digest write at %s hashes neither the whole header nor the data parameter", rule, fnName(fn), c.Pos(w.Pos()))
+		})
+		isHdr := func(st *c04XState, in ssa.Instruction) bool {
+			arg, ok := c04IsHashWrite(in, a.sendDigest)
+			if !ok {
+				return false
 			}
+			r, whole := x.WholeOf(st, st.Fr, arg)
+			return headers[r] && whole
 		}
+		isData := func(st *c04XState, in ssa.Instruction) bool {
+			arg, ok := c04IsHashWrite(in, a.sendDigest)
+			return ok && data != nil && x.Canon(st, st.Fr, arg) == dataV
+		}
+		root.Walk(func(fr *c04Frame, in ssa.Instruction) {
+			if _, ok := c04IsHashWrite(in, a.sendDigest); ok {
+				st := &c04XState{Fr: fr, B: in.Block()}
+				if !isHdr(st, in) && !isData(st, in) {
+					c.Note("%s: %s: a send-digest write at %s hashes neither the whole header nor the data parameter", rule, fnName(fn), c.Pos(in.Pos()))
+				}
+			}
+		})
 		// len(data) == 0: nothing to hash
-		for _, b := range fn.Blocks {
-			if root, zero, _, ok := zeroEdges(b); ok {
-				if call, isLen := c01IsBuiltin(root, "len"); isLen && data != nil && call.Call.Args[0] == ssa.Value(data) {
-					dataCuts.AddEdges(zero)
+		dataZero := func(st *c04XState, at c04XAtom, truth bool) bool {
+			r, zero, ok := c04AtomZero(at, truth)
+			return ok && zero && data != nil && x.ZeroRoot(st, at.Fr, r) == dataV
+		}
+		isFlag := func(_ *c04XState, in ssa.Instruction) bool { return c04IsTrueStore(in, a.sendWritten) }
+		order(x, root, isHdr, isData)
+		isWrite := func(_ *c04XState, in ssa.Instruction) bool {
+			_, ok := isCallTo(in, a.wwc.Object())
+			return ok
+		}
+		sites := 0
+		pos := fn.Pos()
+		root.Walk(func(_ *c04Frame, in ssa.Instruction) {
+			if isWrite(nil, in) {
+				sites++
+				pos = in.Pos()
+			}
+		})
+		n += sites
+		if sites > 0 {
+			for _, k := range []struct {
+				key, what string
+				q         *c04XQuery
+			}{
+				{"#write<-hash(header)", "a send-digest write of the whole frame header, or the digest-frozen edge", &c04XQuery{Target: isWrite, CutInstr: isHdr, CutCond: base}},
+				{"#write<-hash(data)", "a send-digest write of the data parameter, the len(data)==0 edge, or the digest-frozen edge", &c04XQuery{Target: isWrite, CutInstr: isData, CutCond: or(base, dataZero)}},
+				{"#write<-sendDigestWritten", "sendDigestWritten=true, or the digest-frozen edge", &c04XQuery{Target: isWrite, CutInstr: isFlag, CutCond: base}},
+			} {
+				if ok, path := x.Blocked(root.Entry(), k.q); ok {
+					c.Ok(rule, fnName(fn)+k.key, "every path to it passes "+k.what, pos)
+				} else {
+					c.Violate(rule, fnName(fn)+k.key, "reachable without passing "+k.what, pos, c.describePath(path)...)
 				}
 			}
 		}
-		flagCuts.AddInstrs(c04TrueStores(fn, a.sendWritten)...)
-		c04Order(c, rule, fn, hdrCuts, dataCuts)
-		for _, w := range callsIn(fn, a.wwc.Object()) {
-			n++
-			c.mustPassInstr(rule, fnName(fn)+"#write<-hash(header)", fn, w, hdrCuts, "a send-digest write of the whole frame header, or the digest-frozen edge")
-			c.mustPassInstr(rule, fnName(fn)+"#write<-hash(data)", fn, w, dataCuts, "a send-digest write of the data parameter, the len(data)==0 edge, or the digest-frozen edge")
-			c.mustPassInstr(rule, fnName(fn)+"#write<-sendDigestWritten", fn, w, flagCuts, "sendDigestWritten=true, or the digest-frozen edge")
-		}
+		overflow(x, fn)
 	}
 	// --- receivers
 	ctorOK := c04DigestCtor(c, rule, a, a.recvDigest)
 	for _, fn := range []*ssa.Function{a.rf, a.rfe} {
-		_, frozen := fieldCondEdges(fn, a.finalRecv)
-		base := newCuts().AddEdges(frozen...)
-		if ctorOK {
-			nilE, _ := fieldCondEdges(fn, a.recvDigest)
-			base.AddEdges(nilE...)
-		}
-		for e := range infeasibleEdges(fn) {
-			base.AddEdges(e)
-		}
-		// header buffer = fixed-size buffer filled by readWithContext; payload = MakeSlice-sized one
-		var hdr ssa.Value
-		var wireLen ssa.Value
-		for _, r := range callsIn(fn, a.rwc.Object()) {
-			root := memRoot(r.Common().Args[2])
-			switch x := root.(type) {
-			case *ssa.Alloc:
-				hdr = x
-			case *ssa.MakeSlice:
-				wireLen = c01Strip(x.Len)
+		x := newX(a.recvDigest, a.finalRecv, a.recvWritten)
+		root := x.Root(fn)
+		base := baseCond(a.finalRecv, a.recvDigest, ctorOK)
+		infeas := map[*ssa.Function]map[Edge]string{}
+		cutEdge := func(st *c04XState, e Edge) bool {
+			m, ok := infeas[st.Fr.Fn]
+			if !ok {
+				m = infeasibleEdges(st.Fr.Fn)
+				infeas[st.Fr.Fn] = m
 			}
+			_, bad := m[e]
+			return bad
 		}
-		if hdr == nil || wireLen == nil {
+		// header buffer = fixed-size buffer filled by readWithContext; payload = buffer sized by a value read from it
+		var hdr, wireLen c04XV
+		haveHdr, haveLen := false, false
+		root.Walk(func(fr *c04Frame, in ssa.Instruction) {
+			if r, ok := isCallTo(in, a.rwc.Object()); ok {
+				buf, _ := x.WholeOf(nil, fr, r.Common().Args[2])
+				switch t := buf.V.(type) {
+				case *ssa.Alloc:
+					hdr, haveHdr = buf, true
+				case *ssa.MakeSlice:
+					if _, isC := constInt(t.Len); isC {
+						hdr, haveHdr = buf, true
+					} else {
+						wireLen, haveLen = x.CanonInt(nil, buf.Fr, t.Len), true
+					}
+				}
+			}
+		})
+		if !haveHdr || !haveLen {
 			c.Undecided(rule, fnName(fn)+"#buffers", "cannot identify the header buffer and the payload buffer read from the wire", fn.Pos())
 			continue
 		}
-		clone := func() *Cuts {
-			cc := newCuts()
-			for e := range base.Edges {
-				cc.AddEdges(e)
+		isHdr := func(st *c04XState, in ssa.Instruction) bool {
+			arg, ok := c04IsHashWrite(in, a.recvDigest)
+			if !ok {
+				return false
 			}
-			return cc
+			r, whole := x.WholeOf(st, st.Fr, arg)
+			return r == hdr && whole
 		}
-		hdrCuts, flagCuts := clone(), clone()
-		writes := c04HashWrites(fn, a.recvDigest)
-		for _, w := range writes {
-			arg := w.Common().Args[0]
-			if memRoot(arg) == hdr && c04WholeOf(arg, hdr) {
-				hdrCuts.AddInstrs(w)
-			}
+		isOther := func(st *c04XState, in ssa.Instruction) bool {
+			_, ok := c04IsHashWrite(in, a.recvDigest)
+			return ok && !isHdr(st, in)
 		}
-		flagCuts.AddInstrs(c04TrueStores(fn, a.recvWritten)...)
-		dataW := newCuts()
-		for _, w := range writes {
-			if !hdrCuts.Instrs[w] {
-				dataW.AddInstrs(w)
-			}
-		}
-		c04Order(c, rule, fn, hdrCuts, dataW)
-		var zeroE []Edge
-		for _, b := range fn.Blocks {
-			if root, zero, _, ok := zeroEdges(b); ok && c01Strip(root) == wireLen {
-				zeroE = append(zeroE, zero)
-			}
+		isFlag := func(_ *c04XState, in ssa.Instruction) bool { return c04IsTrueStore(in, a.recvWritten) }
+		order(x, root, isHdr, isOther)
+		lenZero := func(st *c04XState, at c04XAtom, truth bool) bool {
+			r, zero, ok := c04AtomZero(at, truth)
+			return ok && zero && x.ZeroRoot(st, at.Fr, r) == wireLen
 		}
 		tg := c.successTargets(fn)
 		n += len(tg)
-		c.mustPassReturns(rule, fn, tg, hdrCuts, "a recv-digest write of the whole header read from the wire, or the digest-frozen edge")
-		// data: per return, the hashed slice must be the returned one
+		if len(tg) == 0 {
+			c.Undecided(rule, fnName(fn)+"#returns", "no success return found", fn.Pos())
+		}
+		byOrd := map[int][]RetPoint{}
+		var ords []int
 		for _, t := range tg {
-			dataCuts := clone().AddEdges(zeroE...)
-			for _, w := range writes {
-				if c04SameData(fn, w.Common().Args[0], t.Ret.Results[0]) {
-					dataCuts.AddInstrs(w)
+			o := retOrdinal(fn, t.Ret)
+			if _, ok := byOrd[o]; !ok {
+				ords = append(ords, o)
+			}
+			byOrd[o] = append(byOrd[o], t)
+		}
+		sort.Ints(ords)
+		for _, o := range ords {
+			ts := byOrd[o]
+			ret := ts[0].Ret
+			isRet := func(st *c04XState, in ssa.Instruction) bool {
+				_, ok := x.SuccessReturn(st, in, ts)
+				return ok
+			}
+			construct := fmt.Sprintf("%s#return%d", fnName(fn), o)
+			if ok, path := x.Blocked(root.Entry(), &c04XQuery{Target: isRet, CutInstr: isHdr, CutCond: base, CutEdge: cutEdge}); ok {
+				c.Ok(rule, construct, "every path to this return passes a recv-digest write of the whole header read from the wire, or the digest-frozen edge", ret.Pos())
+			} else {
+				c.Violate(rule, construct, "a path reaches this return without passing a recv-digest write of the whole header read from the wire, or the digest-frozen edge", ret.Pos(), c.describePath(path)...)
+			}
+			// data: the hashed slice must be the returned one
+			retOrigins := map[c04XV]bool{}
+			for _, o := range x.Origins(nil, root, ret.Results[0]) {
+				retOrigins[o] = true
+			}
+			retCanon := x.Canon(nil, root, ret.Results[0])
+			isData := func(st *c04XState, in ssa.Instruction) bool {
+				arg, ok := c04IsHashWrite(in, a.recvDigest)
+				if !ok {
+					return false
 				}
+				if x.Canon(st, st.Fr, arg) == retCanon {
+					return true
+				}
+				for _, o := range x.Origins(st, st.Fr, arg) {
+					if retOrigins[o] {
+						return true
+					}
+				}
+				return false
 			}
-			construct := fmt.Sprintf("%s#return%d/hash(data)", fnName(fn), retOrdinal(fn, t.Ret))
-			if p := findPath(entryPoint(fn), t.Target(), dataCuts); p != nil {
-				c.Violate(rule, construct, "a path returns received bytes without feeding them to the receive digest (nor passing the wire-length==0 or digest-frozen edge)", t.Ret.Pos(), c.describePath(p)...)
+			construct = fmt.Sprintf("%s#return%d/hash(data)", fnName(fn), o)
+			if ok, path := x.Blocked(root.Entry(), &c04XQuery{Target: isRet, CutInstr: isData, CutCond: or(base, lenZero), CutEdge: cutEdge}); ok {
+				c.Ok(rule, construct, "the returned bytes were hashed", ret.Pos())
 			} else {
-				c.Ok(rule, construct, "the returned bytes were hashed", t.Ret.Pos())
+				c.Violate(rule, construct, "a path returns received bytes without feeding them to the receive digest (nor passing the wire-length==0 or digest-frozen edge)", ret.Pos(), c.describePath(path)...)
 			}
-			construct = fmt.Sprintf("%s#return%d/recvDigestWritten", fnName(fn), retOrdinal(fn, t.Ret))
-			if p := findPath(entryPoint(fn), t.Target(), flagCuts); p != nil {
-				c.Violate(rule, construct, "a path accepts a cleartext frame without recording recvDigestWritten=true: the frozen digest would be the all-zero block although bytes were received", t.Ret.Pos(), c.describePath(p)...)
+			construct = fmt.Sprintf("%s#return%d/recvDigestWritten", fnName(fn), o)
+			if ok, path := x.Blocked(root.Entry(), &c04XQuery{Target: isRet, CutInstr: isFlag, CutCond: base, CutEdge: cutEdge}); ok {
+				c.Ok(rule, construct, "recvDigestWritten is set on every hashing path", ret.Pos())
 			} else {
-				c.Ok(rule, construct, "recvDigestWritten is set on every hashing path", t.Ret.Pos())
+				c.Violate(rule, construct, "a path accepts a cleartext frame without recording recvDigestWritten=true: the frozen digest would be the all-zero block although bytes were received", ret.Pos(), c.describePath(path)...)
 			}
 		}
+		overflow(x, fn)
 	}
-	c.MinCount(rule, "connection writes + receiver success returns", n, 5)
+	c.MinCount(rule, "connection writes + receiver success returns", n, 3)
 }
 
-// c04Order: within one invocation the header is hashed before the payload (the peer hashes
-// header||payload per frame): no header write is reachable from a payload write.
-func c04Order(c *Ctx, rule string, fn *ssa.Function, hdr, data *Cuts) {
-	good := true
-	var pos token.Pos
-	for d := range data.Instrs {
-		for h := range hdr.Instrs {
-			if findPath(after(d), Target{Instr: h}, nil) != nil {
-				good, pos = false, d.Pos()
-			}
-		}
-	}
-	c.Check(good, rule, fnName(fn)+"#hash-order", "the header is hashed before the payload", "the payload is hashed before the header: the digest differs from the peer's, which hashes header then payload", pos)
-}
-
-// C04-R3: freeze at key install.
+// C04-R3: freeze at key install. Evaluated on the inlined views of SetSymmetricKey and of the two finalizers:
+// the freeze may be a call of the finalizer, a helper that calls both, or the finalizer's body itself.
 func c04r3(c *Ctx) {
 	const rule = "C04-R3"
-	c.Doc(rule, "freeze: SetSymmetricKey calls finalizeSendDigest and finalizeRecvDigest on every path before it stores encrypted=true; final*Digest are written only by their finalizer and the state importer; each finalizer stores digest.Sum only on the '<dir>DigestWritten' edge and the 32-byte zero block only on the not-written edge; *DigestWritten are written only by the frame sender/receivers and the importer")
+	c.Doc(rule, "freeze: in SetSymmetricKey (with its same-module helpers inlined) every path to the store encrypted=true passes, for each direction, a store of final<Dir>Digest or the edge on which it is already set (= finalizeSendDigest and finalizeRecvDigest ran); final*Digest are written only by their finalizer (or helpers only it calls) and the state importer; each finalizer stores digest.Sum only on the '<dir>DigestWritten' edge and the 32-byte zero block only on the not-written edge; *DigestWritten are written only by the frame sender/receivers (or helpers only they call) and the importer")
 	a := c04Anchors(c, rule)
 	if !a.ok {
 		return
 	}
 	n := 0
-	// before encrypted = true, both finalizers ran
-	for _, st := range c04TrueStores(a.ssk, a.encrypted) {
-		n++
-		for _, fin := range []*ssa.Function{a.finS, a.finR} {
-			cuts := newCuts()
-			for _, call := range callsIn(a.ssk, fin.Object()) {
-				cuts.AddInstrs(call)
+	// before encrypted = true, both directions are frozen
+	{
+		x := c04NewX(c.Prog)
+		root := x.Root(a.ssk)
+		isEnc := func(st *c04XState, in ssa.Instruction) bool { return x.IsTrueStore(st, in, a.encrypted) }
+		var pos token.Pos
+		root.Walk(func(fr *c04Frame, in ssa.Instruction) {
+			if isEnc(&c04XState{Fr: fr, B: in.Block()}, in) {
+				n++
+				pos = in.Pos()
 			}
-			c.mustPassInstr(rule, fnName(a.ssk)+"#encrypted=true<-"+fin.Name(), a.ssk, st, cuts, "a call of "+fin.Name())
+		})
+		if n > 0 {
+			for _, d := range []struct {
+				fin   *ssa.Function
+				final *types.Var
+			}{{a.finS, a.finalSend}, {a.finR, a.finalRecv}} {
+				final := d.final
+				q := &c04XQuery{Target: isEnc,
+					CutInstr: func(_ *c04XState, in ssa.Instruction) bool { return storeHit(final)(in) },
+					CutCond: func(_ *c04XState, at c04XAtom, truth bool) bool {
+						on, ok := c04AtomField(at, final, truth)
+						return ok && on
+					}}
+				key := fnName(a.ssk) + "#encrypted=true<-" + d.fin.Name()
+				if ok, path := x.Blocked(root.Entry(), q); ok {
+					c.Ok(rule, key, "every path to it passes the freeze of "+final.Name()+" (a call of "+d.fin.Name()+")", pos)
+				} else {
+					c.Violate(rule, key, "reachable without passing a call of "+d.fin.Name()+" (no store of "+final.Name()+" and no test that it is already set on the way)", pos, c.describePath(path)...)
+				}
+			}
+		}
+		if x.Overflow {
+			c.Undecided(rule, fnName(a.ssk)+"#search", "the inlined control flow of SetSymmetricKey is too large to search exhaustively", a.ssk.Pos())
 		}
 	}
 	c.MinCount(rule, "encrypted=true stores in SetSymmetricKey", n, 1)
@@ -214,65 +334,150 @@ func c04r3(c *Ctx) {
 		}
 		return wr
 	}
-	c.whoMay(rule, "write Stream.finalSendDigest", writers(a.finalSend), poss, fnSet(a.finS, a.imp))
-	c.whoMay(rule, "write Stream.finalRecvDigest", writers(a.finalRecv), poss, fnSet(a.finR, a.imp))
-	c.whoMay(rule, "write Stream.sendDigestWritten", writers(a.sendWritten), poss, fnSet(a.send, a.imp))
-	c.whoMay(rule, "write Stream.recvDigestWritten", writers(a.recvWritten), poss, fnSet(a.rf, a.rfe, a.imp))
+	c.whoMayDeep(rule, "write Stream.sendDigestWritten", writers(a.sendWritten), poss, fnSet(a.send, a.imp))
+	c.whoMayDeep(rule, "write Stream.recvDigestWritten", writers(a.recvWritten), poss, fnSet(a.rf, a.rfe, a.imp))
 	// finalizers
-	for _, d := range []struct {
+	type dir struct {
 		fin                    *ssa.Function
 		digest, final, written *types.Var
-	}{{a.finS, a.sendDigest, a.finalSend, a.sendWritten}, {a.finR, a.recvDigest, a.finalRecv, a.recvWritten}} {
-		fn := d.fin
-		off, on := fieldCondEdges(fn, d.written)
-		nilE, _ := fieldCondEdges(fn, d.digest)
-		k := 0
-		allInstrs(fn, func(_ *ssa.BasicBlock, _ int, in ssa.Instruction) {
-			st, ok := in.(*ssa.Store)
-			if !ok {
-				return
-			}
-			fa, ok := st.Addr.(*ssa.FieldAddr)
-			if !ok || fieldOfAddr(fa) != d.final {
-				return
-			}
-			k++
-			// what is stored: Sum of the running digest, or a fresh zero block
-			isSum, isZero := false, false
-			for _, o := range origins(fn, st.Val) {
-				if call, _ := originCall(o); call != nil {
-					cc := call.Common()
-					if cc.IsInvoke() && cc.Method.Name() == "Sum" && readsField(cc.Value, d.digest) {
-						isSum = true
-						continue
-					}
-				}
-				if al, ok := o.(*ssa.Alloc); ok {
-					if arr, ok := al.Type().Underlying().(*types.Pointer).Elem().Underlying().(*types.Array); ok && arr.Len() == 32 && c04NeverWritten(al) {
-						isZero = true
-						continue
-					}
-				}
-				if ms, ok := o.(*ssa.MakeSlice); ok {
-					if ln, isC := constInt(ms.Len); isC && ln == 32 && c04NeverWritten(ms) {
-						isZero = true
-						continue
-					}
-				}
-				isSum, isZero = false, false
-				break
-			}
-			switch {
-			case isSum && !isZero:
-				c.mustPassInstr(rule, fnName(fn)+"#store-Sum", fn, st, newCuts().AddEdges(on...), "the edge on which "+d.written.Name()+" is true")
-			case isZero && !isSum:
-				// the digest==nil edge leads here too; it is dead under the constructor invariant (decided in R2)
-				c.mustPassInstr(rule, fnName(fn)+"#store-zero-block", fn, st, newCuts().AddEdges(off...).AddEdges(nilE...), "the edge on which "+d.written.Name()+" is false")
-			default:
-				c.Undecided(rule, fnName(fn)+"#store", "the value frozen into "+d.final.Name()+" is neither digest.Sum(nil) nor a fresh 32-byte zero block", st.Pos())
+	}
+	// freeze decides, for the stores of final<Dir>Digest in the inlined view of fn, that digest.Sum is taken
+	// only on the written edge and the zero block only on the not-written edge; with once set (a function that
+	// is not the finalizer itself) also that the store happens only while the digest is not yet frozen.
+	freeze := func(d dir, fn *ssa.Function, once bool) (k int, good bool) {
+		good = true
+		violate := func(key, msg string, pos token.Pos, wit ...string) {
+			good = false
+			c.Violate(rule, key, msg, pos, wit...)
+		}
+		x := c04NewX(c.Prog)
+		root := x.Root(fn)
+		type site struct {
+			fr *c04Frame
+			st *ssa.Store
+		}
+		var sites []site
+		root.Walk(func(fr *c04Frame, in ssa.Instruction) {
+			if storeHit(d.final)(in) {
+				sites = append(sites, site{fr, in.(*ssa.Store)})
 			}
 		})
-		c.MinCount(rule, "stores to "+d.final.Name()+" in "+fn.Name(), k, 2)
+		for _, s := range sites {
+			k++
+			st := s.st
+			// the condition is demanded where the value is produced (the Sum call / the fresh buffer): the store
+			// itself may be unconditional when a value helper or a conditional expression chooses the value
+			checkAt := func(sfr *c04Frame, sin ssa.Instruction, key, what string, cut func(*c04XState, c04XAtom, bool) bool) {
+				at := func(ps *c04XState, in ssa.Instruction) bool { return in == sin && ps.Fr == sfr }
+				if ok, path := x.Blocked(root.Entry(), &c04XQuery{Target: at, CutCond: cut}); ok {
+					c.Ok(rule, fnName(fn)+key, "every path to it passes "+what, st.Pos())
+				} else {
+					violate(fnName(fn)+key, "reachable without passing "+what, st.Pos(), c.describePath(path)...)
+				}
+			}
+			check := func(site c04XV, key, what string, cut func(*c04XState, c04XAtom, bool) bool) {
+				sin, _ := site.V.(ssa.Instruction)
+				checkAt(site.Fr, sin, key, what, cut)
+			}
+			if once {
+				checkAt(s.fr, st, "#store-once", "the edge on which "+d.final.Name()+" is still nil (a frozen digest is never overwritten)", func(_ *c04XState, a c04XAtom, truth bool) bool {
+					on, ok := c04AtomField(a, d.final, truth)
+					return ok && !on
+				})
+			}
+			bad := false
+			for _, o := range x.Origins(nil, s.fr, st.Val) {
+				isSum, isZero := false, false
+				if call, _ := originCall(o.V); call != nil {
+					cc := call.Common()
+					if cc.IsInvoke() && cc.Method.Name() == "Sum" && readsField(x.Canon(nil, o.Fr, cc.Value).V, d.digest) {
+						isSum = true
+					}
+				}
+				if al, ok := o.V.(*ssa.Alloc); ok {
+					if arr, ok := al.Type().Underlying().(*types.Pointer).Elem().Underlying().(*types.Array); ok && arr.Len() == 32 && c04NeverWritten(al) {
+						isZero = true
+					}
+				}
+				if ms, ok := o.V.(*ssa.MakeSlice); ok {
+					if ln, isC := constInt(ms.Len); isC && ln == 32 && c04NeverWritten(ms) {
+						isZero = true
+					}
+				}
+				switch {
+				case isSum:
+					site := o
+					if ex, ok := o.V.(*ssa.Extract); ok {
+						site.V = ex.Tuple
+					}
+					check(site, "#store-Sum", "the edge on which "+d.written.Name()+" is true", func(_ *c04XState, a c04XAtom, truth bool) bool {
+						on, ok := c04AtomField(a, d.written, truth)
+						return ok && on
+					})
+				case isZero:
+					// the digest==nil edge leads here too; it is dead under the constructor invariant (decided in R2)
+					check(o, "#store-zero-block", "the edge on which "+d.written.Name()+" is false", func(_ *c04XState, a c04XAtom, truth bool) bool {
+						if on, ok := c04AtomField(a, d.written, truth); ok && !on {
+							return true
+						}
+						on, ok := c04AtomField(a, d.digest, truth)
+						return ok && !on
+					})
+				default:
+					bad = true
+				}
+			}
+			if bad {
+				good = false
+				c.Undecided(rule, fnName(fn)+"#store", "the value frozen into "+d.final.Name()+" is neither digest.Sum(nil) nor a fresh 32-byte zero block", st.Pos())
+			}
+		}
+		if x.Overflow {
+			good = false
+			c.Undecided(rule, fnName(fn)+"#search", "the inlined control flow of this function is too large to search exhaustively", fn.Pos())
+		}
+		return k, good
+	}
+	for _, d := range []dir{{a.finS, a.sendDigest, a.finalSend, a.sendWritten}, {a.finR, a.recvDigest, a.finalRecv, a.recvWritten}} {
+		k, _ := freeze(d, d.fin, false)
+		c.MinCount(rule, "stores to "+d.final.Name()+" in "+d.fin.Name(), k, 1)
+		// writers: the finalizer (and helpers only it calls) and the importer; a function that today calls the
+		// finalizer (key install, first protected frame) may instead carry the finalizer's body, provided its
+		// stores obey the finalizer's rules and never overwrite a frozen digest
+		allow := fnSet(d.fin, a.imp)
+		inlineOK := fnSet(a.ssk, a.enc, a.dec)
+		seen := map[*ssa.Function]bool{}
+		for _, w := range writers(d.final) {
+			t := topFn(w)
+			if seen[t] {
+				continue
+			}
+			seen[t] = true
+			construct := "write Stream." + d.final.Name() + "@" + fnName(t)
+			switch {
+			case allow[t]:
+				c.Ok(rule, construct, fnName(t)+" is an allowed site of write Stream."+d.final.Name(), poss[w])
+			case c.onlyReachableFrom(t, allow):
+				c.Ok(rule, construct, fnName(t)+" is a helper only reachable from the allowed sites", poss[w])
+			case inlineOK[t] || c.onlyReachableFrom(t, inlineOK):
+				okAll := true
+				for _, r := range []*ssa.Function{a.ssk, a.enc, a.dec} {
+					if r != t && (inlineOK[t] || !c.reachableFns([]*ssa.Function{r}, false)[t]) {
+						continue
+					}
+					if _, good := freeze(d, r, true); !good {
+						okAll = false
+					}
+				}
+				if okAll {
+					c.Ok(rule, construct, fnName(t)+" carries the finalizer's body: its stores obey the finalizer's rules", poss[w])
+				} else {
+					c.Violate(rule, construct, fnName(t)+" writes Stream."+d.final.Name()+" but not the way the finalizer does (allowed: "+allowNames(allow)+", or a copy of the finalizer's body in the key-install / first-frame functions)", poss[w])
+				}
+			default:
+				c.Violate(rule, construct, fnName(t)+" must not write Stream."+d.final.Name()+" (allowed: "+allowNames(allow)+" and helpers only they call)", poss[w])
+			}
+		}
 	}
 }
 
@@ -306,10 +511,10 @@ func c04NeverWritten(buf ssa.Value) bool {
 	return true
 }
 
-// C04-R4: AAD layout mirrored.
+// C04-R4: AAD layout mirrored. Evaluated on the inlined view of encryptDataWithAAD / decryptDataWithAAD.
 func c04r4(c *Ctx) {
 	const rule = "C04-R4"
-	c.Doc(rule, "first-frame associated data: encryptDataWithAAD builds [0:32]<-finalSendDigest, [32:64]<-finalRecvDigest, [64:]<-header; decryptDataWithAAD the mirror image [0:32]<-finalRecvDigest, [32:64]<-finalSendDigest, [64:]<-header (oracle: the property's 'send||recv, mirrored on receive'); the first-frame branch is taken on the edge where finished{Send,Recv}AAD is false, sets it true before the AEAD call, calls both finalizers, and the flag is written nowhere else but SetSymmetricKey and the importer")
+	c.Doc(rule, "first-frame associated data: encryptDataWithAAD builds [0:32]<-finalSendDigest, [32:64]<-finalRecvDigest, [64:]<-header; decryptDataWithAAD the mirror image [0:32]<-finalRecvDigest, [32:64]<-finalSendDigest, [64:]<-header (oracle: the property's 'send||recv, mirrored on receive'); the first-frame branch is taken on the edge where finished{Send,Recv}AAD is false, every success path through it sets the flag, both digests are frozen before the AEAD call, and the flag is written nowhere else but SetSymmetricKey and the importer; same-module helpers of the two functions are followed")
 	a := c04Anchors(c, rule)
 	seal, open := c.aeadMethod04(rule, "Seal"), c.aeadMethod04(rule, "Open")
 	if !a.ok || seal == nil || open == nil {
@@ -322,6 +527,7 @@ func c04r4(c *Ctx) {
 		flag        *types.Var
 		first, next string
 	}{{a.enc, seal, a.finishedSend, "finalSendDigest", "finalRecvDigest"}, {a.dec, open, a.finishedRecv, "finalRecvDigest", "finalSendDigest"}} {
+		d := d
 		fn := d.fn
 		hdrPar := c01Param(fn, "frameHeader", 2)
 		if hdrPar == nil {
@@ -329,13 +535,29 @@ func c04r4(c *Ctx) {
 			continue
 		}
 		hdr := "param:" + hdrPar.Name()
-		for _, call := range callsIn(fn, d.aead) {
+		x, root, aeads := c04AADView(c, a, fn, d.aead, d.flag)
+		// the first-frame edge: the outcome of a test of the flag on which it is still false
+		flagOff := func(_ *c04XState, at c04XAtom, truth bool) bool {
+			on, ok := c04AtomField(at, d.flag, truth)
+			return ok && !on
+		}
+		flagTests := 0
+		root.Walk(func(_ *c04Frame, in ssa.Instruction) {
+			if fa, ok := in.(*ssa.FieldAddr); ok && fieldOfAddr(fa) == d.flag {
+				if w, r := addrUses(fa); r && !w {
+					flagTests++
+				}
+			}
+		})
+		for _, s := range aeads {
+			call := s.call
 			n++
-			lay, ok := c04AADLayout(fn, call, d.flag)
+			lay, ok := c04AADLayout(x, root, s.fr, call, d.flag, hdrPar)
 			if !ok {
 				c.Undecided(rule, fnName(fn)+"#aad", "the associated data of "+d.aead.Name()+" is not a locally made buffer filled by copy() at constant offsets", call.Pos())
 				continue
 			}
+			isAEAD := func(st *c04XState, in ssa.Instruction) bool { return in == call.(ssa.Instruction) && st.Fr == s.fr }
 			firsts := 0
 			for _, br := range lay {
 				if !br.First {
@@ -346,48 +568,63 @@ func c04r4(c *Ctx) {
 				c.Check(c04LayoutIs(br, want) && br.LenConst == 64 && br.LenOfHdr, rule, fnName(fn)+"#first-frame-aad",
 					"first-frame AAD is "+br.String(),
 					fmt.Sprintf("first-frame AAD is {%s} (length %d+len(header)=%v); the format requires [0:32]<-%s, [32:64]<-%s, [64:]<-header: the peer's mirrored AAD will not match", br.String(), br.LenConst, br.LenOfHdr, d.first, d.next), call.Pos())
-				// within the first-frame branch: flag set, both finalizers called, before the AEAD call
-				off, _ := fieldCondEdges(fn, d.flag)
 				// the first-frame flag: set on every path from the first-frame edge to a success return (so the
 				// next frame uses the header-only AAD). Whether it is set before or after the AEAD call is not
 				// demanded: setting it only once the frame has authenticated is at least as good.
 				{
-					okFlag := len(off) > 0
-					stores := c04TrueStores(fn, d.flag)
-					for _, e := range off {
-						for _, t := range c.successTargets(fn) {
-							if ev := t.Ret.Results[len(t.Ret.Results)-1]; !isNilConst(ev) {
-								continue
-							}
-							if findPath(Point{e.To(), 0}, t.Target(), newCuts().AddInstrs(stores...)) != nil {
-								okFlag = false
-							}
+					stores := 0
+					root.Walk(func(fr *c04Frame, in ssa.Instruction) {
+						if x.IsTrueStore(&c04XState{Fr: fr, B: in.Block()}, in, d.flag) {
+							stores++
 						}
+					})
+					var tg []RetPoint
+					for _, t := range c.successTargets(fn) {
+						if ev := t.Ret.Results[len(t.Ret.Results)-1]; !isNilConst(ev) {
+							continue
+						}
+						tg = append(tg, t)
 					}
-					c.Check(okFlag && len(stores) > 0, rule, fnName(fn)+"#first-frame=>"+d.flag.Name()+"=true", "every success path through the first-frame branch sets "+d.flag.Name(), "a frame can be processed on the first-frame edge and success returned without setting "+d.flag.Name()+": the digests would be bound into a second frame's associated data too and the peer's header-only AAD would not match", call.Pos())
+					okFlag, _ := x.Blocked(root.Entry(), &c04XQuery{
+						Target: func(st *c04XState, in ssa.Instruction) bool {
+							_, ok := x.SuccessReturn(st, in, tg)
+							return ok
+						},
+						CutInstr: func(st *c04XState, in ssa.Instruction) bool { return x.IsTrueStore(st, in, d.flag) },
+						MarkCond: flagOff, NeedMark: true,
+					})
+					c.Check(okFlag && stores > 0 && flagTests > 0, rule, fnName(fn)+"#first-frame=>"+d.flag.Name()+"=true", "every success path through the first-frame branch sets "+d.flag.Name(), "a frame can be processed on the first-frame edge and success returned without setting "+d.flag.Name()+": the digests would be bound into a second frame's associated data too and the peer's header-only AAD would not match", call.Pos())
 				}
 				for _, need := range []struct {
-					what string
-					ins  []ssa.Instruction
+					what  string
+					final *types.Var
 				}{
-					{"finalizeSendDigest()", c04Calls(fn, a.finS)},
-					{"finalizeRecvDigest()", c04Calls(fn, a.finR)},
+					{"finalizeSendDigest()", a.finalSend},
+					{"finalizeRecvDigest()", a.finalRecv},
 				} {
-					okAll := len(off) > 0 && len(need.ins) > 0
-					for _, e := range off {
-						if findPath(Point{e.To(), 0}, Target{Instr: call}, newCuts().AddInstrs(need.ins...)) != nil {
-							okAll = false
-						}
-					}
-					c.Check(okAll, rule, fnName(fn)+"#first-frame=>"+need.what, "done on the first-frame edge before "+d.aead.Name(), "on the first-frame edge "+d.aead.Name()+" can be reached without "+need.what, call.Pos())
+					need := need
+					okAll, _ := x.Blocked(root.Entry(), &c04XQuery{
+						Target:   isAEAD,
+						CutInstr: func(_ *c04XState, in ssa.Instruction) bool { return storeHit(need.final)(in) },
+						CutCond: func(st *c04XState, at c04XAtom, truth bool) bool {
+							on, ok := c04AtomField(at, need.final, truth)
+							return ok && on
+						},
+						MarkCond: flagOff, NeedMark: true,
+					})
+					c.Check(okAll && flagTests > 0, rule, fnName(fn)+"#first-frame=>"+need.what, "done on the first-frame edge before "+d.aead.Name(), "on the first-frame edge "+d.aead.Name()+" can be reached without "+need.what+" (no freeze of "+need.final.Name()+" on the way)", call.Pos())
 				}
 			}
 			c.Check(firsts == 1, rule, fnName(fn)+"#first-frame-branch", "exactly one AAD buffer is built on the first-frame edge", fmt.Sprintf("%d AAD buffers are built on the edge where %s is false (expected 1)", firsts, d.flag.Name()), call.Pos())
 		}
 		// inside the encrypt/decrypt function the flag only ever goes to true (it is cleared by key install / import only)
-		for _, st := range storesToField(fn, d.flag) {
-			b, isB := constBool(st.Val)
-			c.Check(isB && b, rule, fnName(fn)+"#"+d.flag.Name()+"-store", "the flag is only ever set to true here", "the first-frame flag is cleared or set to a computed value: a later frame could take the first-frame branch again", st.Pos())
+		root.Walk(func(fr *c04Frame, in ssa.Instruction) {
+			if storeHit(d.flag)(in) {
+				c.Check(x.IsTrueStore(&c04XState{Fr: fr, B: in.Block()}, in, d.flag), rule, fnName(fn)+"#"+d.flag.Name()+"-store", "the flag is only ever set to true here", "the first-frame flag is cleared or set to a computed value: a later frame could take the first-frame branch again", in.Pos())
+			}
+		})
+		if x.Overflow {
+			c.Undecided(rule, fnName(fn)+"#search", "the inlined control flow of this function is too large to search exhaustively", fn.Pos())
 		}
 		var wr []*ssa.Function
 		poss := map[*ssa.Function]token.Pos{}
@@ -397,17 +634,9 @@ func c04r4(c *Ctx) {
 				poss[acc.Fn] = acc.Instr.Pos()
 			}
 		}
-		c.whoMay(rule, "write Stream."+d.flag.Name(), wr, poss, fnSet(fn, a.ssk, a.imp))
+		c.whoMayDeep(rule, "write Stream."+d.flag.Name(), wr, poss, fnSet(fn, a.ssk, a.imp))
 	}
 	c.MinCount(rule, "AEAD calls", n, 2)
-}
-
-func c04Calls(fn, callee *ssa.Function) []ssa.Instruction {
-	var out []ssa.Instruction
-	for _, call := range callsIn(fn, callee.Object()) {
-		out = append(out, call)
-	}
-	return out
 }
 
 // aeadMethod04 resolves crypto/cipher.AEAD.<name> (own copy so that C04/C12 build without rules_c02.go).
@@ -428,7 +657,7 @@ func (c *Ctx) aeadMethod04(rule, name string) *types.Func {
 // C04-R5: the first protected message follows key installation.
 func c04r5(c *Ctx) {
 	const rule = "C04-R5"
-	c.Doc(rule, "first protected message: in performFullAuthentication (client) and ServerHandshakeWithMessage (server) every success return passes a nil-error setupStreamEncryption call and, after it, a nil-error read (client: GetClassAdWithMaxSize) resp. flush (server: FinishMessage) of the post-authentication message; the server's resumption branch delegates to handleSessionResumption (first protected message = first command)")
+	c.Doc(rule, "first protected message: in performFullAuthentication (client) and ServerHandshakeWithMessage (server), with their same-module helpers inlined, every success return passes the nil-error edge of a setupStreamEncryption call and, after it, the nil-error edge of a read (client: GetClassAdWithMaxSize) resp. flush (server: FinishMessage) of the post-authentication message; the server's resumption branch delegates to handleSessionResumption (first protected message = first command)")
 	setup := c.needFn(rule, "security", "(*Authenticator).setupStreamEncryption")
 	cli := c.needFn(rule, "security", "(*Authenticator).performFullAuthentication")
 	srv := c.needFn(rule, "security", "(*Authenticator).ServerHandshakeWithMessage")
@@ -443,7 +672,16 @@ func c04r5(c *Ctx) {
 		fn, io *ssa.Function
 		what   string
 	}{{cli, get, "a successful read of the post-authentication ad"}, {srv, fin, "a successful flush of the post-authentication ad"}} {
+		d := d
 		fn := d.fn
+		// helpers that install the key or perform the post-authentication I/O are followed
+		x := c04NewX(c.Prog, setup, resume, get, fin)
+		x.Relevant = func(in ssa.Instruction) bool {
+			_, ok := isCallTo(in, setup.Object(), d.io.Object())
+			return ok
+		}
+		x.MaxStates = 400000
+		root := x.Root(fn)
 		var tg []RetPoint
 		for _, t := range c.successTargets(fn) {
 			// exception (one symbol): "return a.handleSessionResumption(...)" - a resumed session has no
@@ -454,34 +692,50 @@ func c04r5(c *Ctx) {
 			tg = append(tg, t)
 		}
 		n += len(tg)
-		setupOK := newCuts()
-		var after []Edge
-		for _, call := range callsIn(fn, setup.Object()) {
-			succ, _, checked := callErrEdges(fn, call.Value())
-			if !checked {
-				c.Violate(rule, fnName(fn)+"#setupStreamEncryption-error", "the error of setupStreamEncryption is not tested", call.Pos())
+		isSetup := func(call ssa.CallInstruction) bool { return calleeFn(call) == setup }
+		isIO := func(call ssa.CallInstruction) bool { return calleeFn(call) == d.io }
+		setupNil := func(st *c04XState, at c04XAtom, truth bool) bool {
+			isNil, ok := x.AtomCallNil(st, at, truth, isSetup)
+			return ok && isNil
+		}
+		ioNil := func(st *c04XState, at c04XAtom, truth bool) bool {
+			isNil, ok := x.AtomCallNil(st, at, truth, isIO)
+			return ok && isNil
+		}
+		byOrd := map[int][]RetPoint{}
+		var ords []int
+		for _, t := range tg {
+			o := retOrdinal(fn, t.Ret)
+			if _, ok := byOrd[o]; !ok {
+				ords = append(ords, o)
 			}
-			setupOK.AddEdges(succ...)
-			after = append(after, succ...)
+			byOrd[o] = append(byOrd[o], t)
 		}
-		c.mustPassReturns(rule, fn, tg, setupOK, "a nil-error setupStreamEncryption call")
-		ioOK := newCuts()
-		for _, call := range callsIn(fn, d.io.Object()) {
-			succ, _, _ := callErrEdges(fn, call.Value())
-			ioOK.AddEdges(succ...)
-		}
-		okAll := len(after) > 0
-		var wit []*ssa.BasicBlock
-		for _, e := range after {
-			for _, t := range tg {
-				if p := findPath(Point{e.To(), 0}, t.Target(), ioOK); p != nil {
-					okAll = false
-					wit = p
-				}
+		sort.Ints(ords)
+		for _, o := range ords {
+			ts := byOrd[o]
+			isRet := func(st *c04XState, in ssa.Instruction) bool {
+				_, ok := x.SuccessReturn(st, in, ts)
+				return ok
+			}
+			construct := fmt.Sprintf("%s#return%d", fnName(fn), o)
+			if ok, path := x.Blocked(root.Entry(), &c04XQuery{Target: isRet, CutCond: setupNil}); ok {
+				c.Ok(rule, construct, "every path to this return passes a nil-error setupStreamEncryption call", ts[0].Ret.Pos())
+			} else {
+				c.Violate(rule, construct, "a path reaches this return without passing a nil-error setupStreamEncryption call", ts[0].Ret.Pos(), c.describePath(path)...)
 			}
 		}
+		isAnyRet := func(st *c04XState, in ssa.Instruction) bool {
+			_, ok := x.SuccessReturn(st, in, tg)
+			return ok
+		}
+		okAll, wit := x.Blocked(root.Entry(), &c04XQuery{Target: isAnyRet, NeedMark: true, MarkCond: setupNil, CutCond: ioNil, CutAfterMark: true})
 		c.Check(okAll, rule, fnName(fn)+"#post-auth-after-key", "after the key is installed every success path passes "+d.what,
 			"after setupStreamEncryption a success return is reachable without "+d.what+": the handshake would end without a protected message that authenticates the transcript", fn.Pos(), c.describePath(wit)...)
+		if x.Overflow {
+			c.Undecided(rule, fnName(fn)+"#search", "the inlined control flow of this function is too large to search exhaustively", fn.Pos())
+		}
+		c.Note("%s: %s: largest search expanded %d states over %d frames", rule, fnName(fn), x.peak, len(root.Frames()))
 	}
 	c.MinCount(rule, "success returns of the two full-handshake functions", n, 2)
 }
